@@ -282,8 +282,16 @@ def zshift_halfcell(d, lo=0.04, hi=0.96):
             if not np.any(np.abs(tot) > 1e-12):
                 continue
             frac = (a - b[:, :-1]) / np.where(np.abs(tot) > 1e-300, tot, np.nan)
+            ok = (frac > lo) & (frac < hi)
+            if face == "corners" and "Bpxy" in m:
+                # a face AT an X-point (Bp = 0 there): the integrand Bt/(R Bp) is not integrable
+                # along the separatrix, the stored corner value is a truncated divergent integral
+                # and no half-way statement applies to the cell that ends on it
+                bp = np.abs(m["Bpxy"]["corners"])
+                at_x = bp < 1e-6 * np.nanmax(bp)
+                ok = ok | at_x[:, 1:] | at_x[:, :-1]
             n += frac.size
-            for i, j in np.argwhere(~((frac > lo) & (frac < hi)))[:2]:
+            for i, j in np.argwhere(~ok)[:2]:
                 fails.append(dict(region=r["name"], loc=mid, i=int(i), j=int(j), fraction=float(frac[i, j])))
     return result("zShift at the cell middle lies between its values at the two y-faces (about half way)", n, fails, None, (lo, hi))
 
@@ -622,7 +630,9 @@ def file_topology(d):
                 if len(fails) > 5:
                     break
     # theta: 0 at the first core face, 2 pi after the last core cell (x inside the separatrix)
-    if "theta_ylow" in f and j11 + 1 <= j22:
+    # (only when core cells exist: an isolated X-point grid, TORPEX, has jyseps1_1 == jyseps2_1 and
+    # jyseps1_2 == jyseps2_2, no closed surfaces)
+    if "theta_ylow" in f and (j21 - j11) + (j22 - j12) > 0:
         th = np.array(f["theta_ylow"])
         dyv = float(np.array(f["dy"])[0, aidx(j11 + 1)])
         n += 2
